@@ -54,12 +54,25 @@ func (ga *GA) producible() map[string]map[string]bool {
 					out[tn] = map[string]bool{}
 				}
 				v := ast.Unparen(kv.Value)
-				if ta, ok := v.(*ast.TypeAssertExpr); ok {
-					v = ast.Unparen(ta.X)
+				for i := 0; i < 3; i++ {
+					// through assertions and single-assignment locals (a constructor helper's parameter bound to a label)
+					if ta, ok := v.(*ast.TypeAssertExpr); ok {
+						v = ast.Unparen(ta.X)
+					}
+					if id, ok := v.(*ast.Ident); ok {
+						if _, isParam := params[info.Uses[id]]; isParam {
+							break
+						}
+					}
+					nv := ast.Unparen(resolveLocal(info, fd.Body, v))
+					if nv == v {
+						break
+					}
+					v = nv
 				}
 				if id, ok := v.(*ast.Ident); ok {
 					if c, ok := info.Uses[id].(*types.Const); ok {
-						out[tn][c.Name()] = true
+						out[tn][canonConstName(c)] = true
 					} else if pn, ok := params[info.Uses[id]]; ok {
 						if ln := ga.labelNode(n, pn); ln != nil {
 							for c := range ga.consts[ln] {
